@@ -125,6 +125,19 @@ func (s *c14Server) Stop() {
 	_ = os.Remove(s.Log)
 }
 
+// LogTail returns the last n lines of the server's stdout/stderr.
+func (s *c14Server) LogTail(n int) []string {
+	data, err := os.ReadFile(s.Log)
+	if err != nil {
+		return nil
+	}
+	lines := strings.Split(strings.TrimRight(string(data), "\n"), "\n")
+	if len(lines) > n {
+		lines = lines[len(lines)-n:]
+	}
+	return lines
+}
+
 func (s *c14Server) Alive() bool {
 	select {
 	case <-s.exited:
@@ -217,6 +230,7 @@ type c14WS struct {
 	gotClose  bool  // close frame from the server seen
 	tcpEOFAt  int64 // time the server's FIN / reset was observed (0 = not observed)
 	readEndAt int64
+	eofErr    string
 	pingSeq   int
 }
 
@@ -265,6 +279,7 @@ func (w *c14WS) reader() {
 						}
 						w.mu.Lock()
 						w.tcpEOFAt = c14Now()
+						w.eofErr = rerr.Error()
 						w.mu.Unlock()
 						break
 					}
@@ -354,6 +369,13 @@ func (w *c14WS) CloseGraceful(wait time.Duration) int64 {
 	w.mu.Unlock()
 	_ = w.c.Close()
 	return at
+}
+
+// CloseInfo describes how the read side ended (diagnostics).
+func (w *c14WS) CloseInfo() string {
+	w.mu.Lock()
+	defer w.mu.Unlock()
+	return fmt.Sprintf("readErr=%v gotCloseFrame=%v readEnd=%.3fms tcpEnd=%.3fms tcpErr=%q", w.readErr, w.gotClose, float64(w.readEndAt)/1e6, float64(w.tcpEOFAt)/1e6, w.eofErr)
 }
 
 // CloseAbrupt resets the TCP connection (no close frame).
